@@ -92,6 +92,9 @@ func (k *Keys) VerifyMasterSeedSig(h uint64, seed, sig []byte) bool {
 type KM struct {
 	K  *Keys
 	Me string
+	// AfterVerify (optional) runs after every VerifyConsensusMessage: a point inside a message handler at which the harness may
+	// let the node's other goroutine act.
+	AfterVerify func()
 }
 
 func (k *Keys) Signer(id string) *KM { return &KM{K: k, Me: id} }
@@ -104,7 +107,11 @@ func (m *KM) VerifyConsensusMessage(h primitives.BlockHeight, content []byte, se
 	if sender == nil {
 		return errors.New("nil sender")
 	}
-	if !m.K.VerifyCM(string(sender.MemberId()), uint64(h), content, sender.Signature()) {
+	ok := m.K.VerifyCM(string(sender.MemberId()), uint64(h), content, sender.Signature())
+	if m.AfterVerify != nil {
+		m.AfterVerify()
+	}
+	if !ok {
 		return errors.New("bad consensus message signature")
 	}
 	return nil
